@@ -319,6 +319,7 @@ func checkC19Draw(c *Ctx, p *Prog) {
 		s, _ := constString(cc.Args[1])
 		return s == "drawCell"
 	}, 1)
+	checkDrawCellWidth(c, p, fn, "C19-R5")
 	// palette table
 	tp := p.pkg("")
 	obj := tp.Types.Scope().Lookup("palette")
